@@ -40,6 +40,7 @@ var c19Hosts = []struct{ host, service, family string }{
 	{"youtube.com@evil.example", "", "youtube"}, {"player.vimeo.com@evil.example", "", "vimeo"}, {"twitter.com:x@evil.example", "", "twitter"},
 	{"evil.example/youtube.com", "", "youtube"}, {"evil.example/player.vimeo.com", "", "vimeo"}, {"evil.example/twitter.com", "", "twitter"},
 	{"evil.example/x?u=http://www.youtube.com", "", "youtube"},
+	{"www.youtube.com&rel=0@evil.example", "", "youtube"}, {"player.vimeo.com&x=1@evil.example", "", "vimeo"}, {"twitter.com&y=2@evil.example", "", "twitter"},
 	// "@" outside the authority: in the path or in the query
 	{"evil.example/@www.youtube.com", "", "youtube"}, {"evil.example/a@player.vimeo.com", "", "vimeo"}, {"evil.example/@twitter.com", "", "twitter"},
 	{"evil.example/x?m=press@youtube.com", "", "youtube"}, {"evil.example/x?m=a@twitter.com", "", "twitter"}, {"evil.example/x?m=a@player.vimeo.com", "", "vimeo"},
@@ -103,7 +104,7 @@ func genC19(t *rapid.T) *Case {
 		var el string
 		switch h.family {
 		case "youtube":
-			shape := g.pick("ytshape", "/embed/ID", "/embed/ID/", "/v/ID", "/v/ID&x=1", "/embed/ID?rel=0&t=5", "/embed//ID//")
+			shape := g.pick("ytshape", "/embed/ID", "/embed/ID/", "/v/ID", "/v/ID&x=1", "/embed/ID?rel=0&t=5", "/embed//ID//", "/embed/?v=ID", "/?v=ID", "?v=ID")
 			o.Shape = shape
 			path := strings.ReplaceAll(shape, "ID", tok)
 			src := scheme + hostPart + path
@@ -118,7 +119,11 @@ func genC19(t *rapid.T) *Case {
 				}
 			}
 			o.Src = src
-			switch g.pick("yttag", "iframe", "iframe", "object-data", "object-param") {
+			yttag := g.pick("yttag", "iframe", "iframe", "object-data", "object-param")
+			if strings.Contains(shape, "=ID") {
+				yttag = "iframe" // an <object> is not kept inside the placeholder, so an id that is not in the path could not be traced
+			}
+			switch yttag {
 			case "iframe":
 				o.Tag = "iframe"
 				el = `<iframe src="` + htmlEsc(src) + `" width="560" height="315"></iframe>`
@@ -130,14 +135,14 @@ func genC19(t *rapid.T) *Case {
 				el = `<object width="425" height="350"><param name="movie" value="` + htmlEsc(src) + `"><embed src="` + htmlEsc(src) + `"></object>`
 			}
 		case "vimeo":
-			shape := g.pick("vmshape", "/video/ID", "/video/ID/", "/video/ID?color=fff", "/ID")
+			shape := g.pick("vmshape", "/video/ID", "/video/ID/", "/video/ID?color=fff", "/ID", "/video/?id=ID", "/?id=ID")
 			o.Shape = shape
 			src := scheme + hostPart + strings.ReplaceAll(shape, "ID", tok) + query
 			o.Src = src
 			o.Tag = "iframe"
 			el = `<iframe src="` + htmlEsc(src) + `" width="640"></iframe>`
 		default:
-			shape := g.pick("twshape", "/user/status/ID", "/user/status/ID/", "/user/statuses/ID?s=20")
+			shape := g.pick("twshape", "/user/status/ID", "/user/status/ID/", "/user/statuses/ID?s=20", "/?id=ID", "?id=ID")
 			o.Shape = shape
 			src := scheme + hostPart + strings.ReplaceAll(shape, "ID", tok) + query
 			o.Src = src
@@ -214,6 +219,18 @@ func checkC19(c *Case) (*Violation, caseInfo) {
 		case dtype != o.Service:
 			if viol == nil {
 				viol = violationf("C19 wrong-data-type", "%s with source %q: data-type=%q, expected %q", o.Tag, o.Src, dtype, o.Service)
+			}
+		case strings.Contains(o.Shape, "=ID") && o.Tag != "iframe-tweet":
+			// the id is not in the path of this source; whatever id is reported must at least be a
+			// real, non-empty path segment of the source or of the page URL it was resolved against
+			isSeg := false
+			for _, seg := range strings.Split(strings.SplitN(o.Src, "?", 2)[0]+"/"+c.Opts.URL, "/") {
+				if seg != "" && seg == did {
+					isSeg = true
+				}
+			}
+			if !isSeg && viol == nil {
+				viol = violationf("C19 made-up-data-id shape="+o.Shape+" service="+o.Service, "%s with source %q: data-id=%q is not a path segment of the source", o.Tag, o.Src, did)
 			}
 		case did != o.Tok:
 			if viol == nil {
